@@ -193,6 +193,11 @@ for tier, insts in (('quick', SL_Q), ('thorough', SL_T)):
                 add(H('C15', f"c15_{e}_slice_{sg}_{i.tag}", 'c15_slice', f"{L + 2}, {T}, {i.digit}, {i.n}, {L}, {e}", tier=tier, inst=i.label,
                       funcs=f"{'BUint' if sg == 'u' else 'BInt'}::from_{e}_slice", cap=900,
                       bound=f'all byte buffers, slice length 0..={L} (2*BYTES+2); unwind {L + 2}'))
+for tier, insts in (('quick', [I(8, 1), I(8, 3), I(16, 2), I(32, 1), I(64, 1), I(64, 2)]), ('thorough', [I(8, 5), I(16, 3), I(32, 3), I(64, 3), I(64, 5)])):
+    for i in insts:
+        for sg, T in (('u', i.U), ('i', i.I)):
+            add(H('C15', f"c15n_bytes_{sg}_{i.tag}", 'c15n_bytes', f"{i.bytes + 3}, {T}, {i.digit}, {i.n}, {i.bytes}", tier=tier, inst=i.label, crate='harness_nightly', cap=900,
+                  funcs=f"{'BUint' if sg == 'u' else 'BInt'} to_be/le/ne_bytes, from_be/le/ne_bytes (bnum feature `nightly`)", bound='all values / all byte arrays, symbolic byte index'))
 both('C15', 'c15_endian', LIN_Q, LIN_T, group='to_be/from_be/to_le/from_le', bound='all values, symbolic byte index')
 
 
@@ -608,7 +613,7 @@ OUTSIDE = {
     'C10': ['strings longer than capacity + 2 characters (10 bytes for radix 2 at 8 bits)', 'full-length strings for widths above 16 bits', 'radices not listed at full length (quick tier: 2, 10, 16, 36 and 2..=36 at length <= 3)'],
     'C13': ['From from a primitive wider than the target (README limitation)', 'known finding F5'],
     'C14': ['int -> float above 192 bits (quick) / for non-u64 digit types above 128 bits'],
-    'C15': ['nightly-only *_bytes methods', 'slices for widths above 128 bits', 'big-endian targets'],
+    'C15': ['slices for widths above 128 bits', 'big-endian targets'],
     'C19': ['negative non-zero floats into unsigned targets (unconstrained by the property)'],
     'C02': ['exact full-operand products above 16 bits (digit product abstracted as an uninterpreted function there)', 'N > 4'],
     'C03': ['Knuth algorithm D on full operands above 16 bits (boundary alphabet instead)', 'widths above 24 bits in the quick tier'],
@@ -671,8 +676,8 @@ CLAIMS = {
                   'int -> float above 128 bits for digit types other than u64 and above 192 bits in the quick tier (320 / 1088 bits in the thorough tier).',
                   'independent IEEE-754 decode + bit-indexed spec; primitive `as` as second oracle'),
     'C15': _claim('from_be_slice / from_le_slice on all byte buffers with every slice length 0..=2*BYTES+2 satisfy the byte-indexed specification (Some exactly when the excess bytes are padding and '
-                  'the sign is kept; value bytes; empty slice is zero); to_be/from_be/to_le/from_le on the little-endian target.',
-                  'the nightly-only to/from_{be,le,ne}_bytes (not built in this revision); widths above 128 bits for slices; big-endian targets.',
+                  'the sign is kept; value bytes; empty slice is zero); to_be/from_be/to_le/from_le on the little-endian target; to/from_{be,le,ne}_bytes (bnum feature `nightly`, second harness crate) are exact inverses producing the two\'s-complement bytes.',
+                  'slices for widths above 128 bits; big-endian targets (to_ne/from_ne and to_be/to_le are checked for the little-endian target this sandbox has).',
                   'byte-indexed specification with symbolic slice length and byte index'),
     'C19': _claim('FromPrimitive::from_{u8..u128,i8..i128,usize,isize} (incl. targets narrower than the source), from_f32/from_f64 over all float bit patterns, ToPrimitive::to_* and '
                   'AsPrimitive::as_ return Some exactly for representable values, with the right value, and never panic.',
